@@ -141,6 +141,11 @@ impl SimDisk {
         d
     }
 
+    /// current length of a regular file (no access counted, no fault applied)
+    pub fn len_of(&self, path: &Path) -> Option<usize> {
+        self.files.get(&normalize(path)).map(|b| b.len())
+    }
+
     pub fn add_file<P: AsRef<Path>>(&mut self, path: P, data: impl Into<Vec<u8>>) {
         let p = normalize(path.as_ref());
         let mut cur = p.parent();
